@@ -308,6 +308,19 @@ def saturate(guard):
     """Close a conjunction of literals under unit propagation through its disjunctive literals
     (implications recorded at merges: `cond => extra` is the literal (not cond or extra))."""
     g = set(guard)
+    # orderings: not (d < 0) <=> -d <= 0 ; d < 0 => d <= 0
+    for a, pol in list(g):
+        if isinstance(a, tuple) and a and a[0] == "cmp" and len(a) == 3 and a[1] in ("<", "<="):
+            try:
+                nd = to_rat(a[2]).neg().canon()
+            except Exception:
+                continue
+            if pol:
+                g.add((("cmp", "<=" if a[1] == "<" else "<", nd), False))
+                if a[1] == "<":
+                    g.add((("cmp", "<=", a[2]), True))
+            else:
+                g.add((("cmp", "<=" if a[1] == "<" else "<", nd), True))
     changed = True
     n = 0
     while changed and n < 20:
